@@ -27,7 +27,7 @@ pub fn meta() -> PropertyMeta {
 #[derive(Clone, Debug, Serialize, Deserialize, Hash)]
 pub struct Intent {
     pub kind: u8,
-    pub picks: [u16; 6],
+    pub picks: [u16; 12],
     pub stop: u8,
     pub omit: u8,
     pub long: u8,
@@ -47,7 +47,7 @@ pub struct Case {
 fn render_name(def: &str, it: &Intent, k: usize) -> Vec<u8> {
     let d = def.as_bytes();
     let (alpha, sfx) = split_suffix(d);
-    let a = if it.long >> k & 1 == 1 { alpha } else { short_of(alpha) };
+    let a = if it.long >> (k % 8) & 1 == 1 { alpha } else { short_of(alpha) };
     let mut s: Vec<u8> = a.to_vec();
     match it.case {
         0 => {}
@@ -61,7 +61,7 @@ fn render_name(def: &str, it: &Intent, k: usize) -> Vec<u8> {
             }
         }
     }
-    let write_one = it.one >> k & 1 == 1;
+    let write_one = it.one >> (k % 8) & 1 == 1;
     if sfx == b"1" {
         if write_one {
             s.push(b'1');
@@ -81,7 +81,7 @@ fn render_name(def: &str, it: &Intent, k: usize) -> Vec<u8> {
 fn walk<'t>(tree: &'t Tree, start: &[usize], it: &Intent) -> Vec<&'t TNode> {
     let mut out = Vec::new();
     let mut path = start.to_vec();
-    for k in 0..6 {
+    for k in 0..12 {
         let children: Vec<(usize, &TNode)> = children_of(tree, &path).iter().enumerate().filter(|(_, c)| !c.name().starts_with('*')).collect();
         if children.is_empty() {
             break;
@@ -93,7 +93,7 @@ fn walk<'t>(tree: &'t Tree, start: &[usize], it: &Intent) -> Vec<&'t TNode> {
             break;
         }
         // stop at a branch now and then (ends at its default node or is undefined)
-        if it.stop >> k & 1 == 1 && k > 0 {
+        if it.stop >> (k % 8) & 1 == 1 && k > 0 {
             break;
         }
     }
@@ -127,7 +127,7 @@ fn build_header(tree: &Tree, cur: &[usize], prev_msg_path: &[usize], first: bool
     let n = nodes.len();
     for (k, node) in nodes.iter().enumerate() {
         // default nodes may be omitted; the anonymous default leaf cannot be spelled at all
-        let omit = node.is_default() && (node.name().is_empty() || it.omit >> k & 1 == 1);
+        let omit = node.is_default() && (node.name().is_empty() || it.omit >> (k % 8) & 1 == 1 || it.omit == 0xFF);
         if omit && !(path.is_empty() && k + 1 == n) {
             continue;
         }
@@ -143,13 +143,13 @@ fn build_header(tree: &Tree, cur: &[usize], prev_msg_path: &[usize], first: bool
     match kind {
         3 => {
             // unknown mnemonic somewhere
-            let k = (it.picks[5] as usize * path.len()) >> 16;
+            let k = (it.picks[11] as usize * path.len()) >> 16;
             path[k] = B(b"ZZQY".to_vec());
         }
         4 => path.push(B(b"EXTRa".to_vec())),
         6 => {
             // wrong numeric suffix on one mnemonic
-            let k = (it.picks[5] as usize * path.len()) >> 16;
+            let k = (it.picks[11] as usize * path.len()) >> 16;
             let (alpha, _) = split_suffix(&path[k]);
             let mut a = alpha.to_vec();
             a.truncate(11);
@@ -260,7 +260,7 @@ pub fn check(case: &Case, obs: &Obs) -> CheckResult {
 fn intent() -> impl Strategy<Value = Intent> {
     (
         prop_oneof![4 => Just(0u8), 8 => Just(1u8), 3 => Just(2u8), 1 => Just(3u8), 1 => Just(4u8), 2 => Just(5u8), 1 => Just(6u8)],
-        any::<[u16; 6]>(),
+        any::<[u16; 12]>(),
         any::<u8>(),
         any::<u8>(),
         any::<u8>(),
@@ -274,7 +274,7 @@ fn intent() -> impl Strategy<Value = Intent> {
 }
 
 fn case_strategy() -> impl Strategy<Value = Case> {
-    (tree_strategy(), proptest::collection::vec(proptest::collection::vec(intent(), 1..7), 1..4)).prop_map(|(tree, mut messages)| {
+    (tree_strategy(), prop_oneof![19 => proptest::collection::vec(prop_oneof![19 => proptest::collection::vec(intent(), 1..7), 1 => proptest::collection::vec(intent(), 8..24)], 1..4), 1 => proptest::collection::vec(proptest::collection::vec(intent(), 1..4), 5..12)]).prop_map(|(tree, mut messages)| {
         // later messages start with a header relative to where the previous message ended
         for m in messages.iter_mut().skip(1) {
             if m[0].omit & 1 == 1 {
